@@ -107,13 +107,18 @@ pub fn gen_dict_program(t: &mut Tape) -> DictProgram {
                 keys.dedup();
             }
         }
+        // near-identical keys sometimes all get the same value (entries that
+        // differ in nothing but the key's case or padding)
+        let same_value = family == 1 && t.chance(1, 2);
         let mut used: Vec<String> = Vec::new();
         for key in keys {
             if used.contains(&key) {
                 continue;
             }
             used.push(key.clone());
-            let v = if t.chance(1, if family == 2 { 12 } else { 5 }) {
+            let v = if family == 1 && same_value {
+                "\"same\"".to_string()
+            } else if t.chance(1, if family == 2 { 12 } else { 5 }) {
                 all_str[a] = false;
                 if a > 0 && t.chance(1, 2) {
                     features.push("nested dict");
@@ -190,6 +195,7 @@ pub fn gen_dict_program(t: &mut Tape) -> DictProgram {
             if has_dive { 4 } else { 0 }, // 15 deep recursion
             3, // 16 an equal dictionary built independently (other insertion order), compared
             if has_dup { 4 } else { 0 }, // 17 call the function with repeated parameter names
+            2, // 18 characters of a long plain string, up to and past its end
         ];
         match t.weighted(&w) {
             0 => {
@@ -314,6 +320,21 @@ pub fn gen_dict_program(t: &mut Tape) -> DictProgram {
                 }
             }
             17 => src.push_str("Say Twice taking 1, 2, 3, 4\n"),
+            18 => {
+                features.push("string indexed at and past its end");
+                let len = 30 + t.draw(40) as usize;
+                let text: String = (0..len).map(|k| (b'a' + (k % 26) as u8) as char).collect();
+                if t.chance(1, 2) {
+                    src.push_str(&format!("Put \"{}\" into Text\n", text));
+                } else {
+                    // built at run time (spare capacity behind the text)
+                    let (a, b) = text.split_at(len / 2);
+                    src.push_str(&format!("Put \"{}\" plus \"{}\" into Text\n", a, b));
+                }
+                for i in [len - 1, len, len + 1, len + 7] {
+                    src.push_str(&format!("Say Text at {}\n", i));
+                }
+            }
             _ => {
                 features.push("undefined name error");
                 match t.draw(3) {
